@@ -420,6 +420,19 @@ def gen_path_list(rng, rep):
             s += '/'
         dd = [True] if (rr >= 2 and rng.random() < 0.15) else []
         out.append([0, s, [0, rr], dd, []])
+    if rng.random() < 0.35:
+        # near-prefix family: a path, something below it, and a sibling whose name extends the path's last component
+        # by a character that sorts before '/' - component-wise and string-wise orderings of the three differ
+        base = [rng.choice(pool[:5]) for _ in range(rng.choice([1, 1, 2]))]
+        ch = rng.choice(['.c', '-x', ' b', '+', '!', '.', '#1'])
+        fam = [base, base + [rng.choice(pool[:4])], base[:-1] + [base[-1] + ch]]
+        if rng.random() < 0.5:
+            fam.append(base[:-1] + [base[-1] + ch, rng.choice(pool[:3])])
+        rng.shuffle(fam)
+        pre = '/' if r == 2 else ''
+        out = out[:rng.choice([0, 0, 1])] + [[0, pre + '/'.join(c), [0, r], [], []] for c in fam]
+        if rep is not None:
+            rep.count('sets:near-prefix-family')
     return out
 
 
